@@ -32,7 +32,9 @@ prop = Prop(
     technique="Hypothesis PBT with a prefix-substitution reference and a round trip, plus an enumerated name alphabet",
     rule=(
         "values: nesting depth <= 4 of arrays / records / File / Directory (path and/or location; location plain, "
-        "file:// percent-encoded, or http/https/s3/ftp), secondaryFiles, listing with children under the directory, "
+        "file:// percent-encoded, or http/https/s3/ftp), secondaryFiles, listing with children under the directory or - "
+        "class 'assembled-directory-listing' - Directory literals whose listing entries (Files, nested Directories, with "
+        "secondaryFiles) live elsewhere below old_dir, "
         "non-file leaves of every JSON type incl. path-looking strings; names over letters, digits, space, % (lone, "
         "%zz, %20, %41, %2F, %25, %C3%A9), # ? & + = ' \" : ; ~ \\ unicode; old/new directories absolute, distinct, not "
         "nested, some with spaces / unicode / percent. Non-trivial = >= 1 File/Directory nested under an array or record "
@@ -206,6 +208,16 @@ def run(case, rec):
             labels.add("secondaryFiles")
         if f.get("listing"):
             labels.add("listing")
+            own = _primary(f)
+            for e in f["listing"]:
+                q = _primary(e) if isinstance(e, dict) else None
+                if own is not None and q is not None and not q.startswith(own + "/"):
+                    labels.add("assembled-directory-listing")
+                    labels.add("assembled-directory-listing:dir-has-" + ("path" if "path" in f else "location-only"))
+                    if e.get("class") == "Directory":
+                        labels.add("assembled-directory-listing:nested-directory")
+                    if e.get("secondaryFiles"):
+                        labels.add("assembled-directory-listing:entry-with-secondaryFiles")
     problems = list(diffs(value, exp, fwd, old, new, exact_urls=False))
     generic = "C32:forward-mismatch"
     back = None
@@ -255,8 +267,20 @@ LEAVES = st.one_of(
 
 
 @st.composite
-def file_value(draw, base: str, hostile: bool, depth: int, directory=None):
-    """a File or Directory whose path is base/<name>"""
+def _primary(f):
+    """decoded local path a File/Directory value denotes (None for other URL schemes)"""
+    s = f.get("path", f.get("location"))
+    if s is None:
+        return None
+    if s.startswith("file://"):
+        return unquote(s[7:])
+    return None if URL_SCHEME.match(s) else s
+
+
+@st.composite
+def file_value(draw, base: str, hostile: bool, depth: int, directory=None, root=None):
+    """a File or Directory whose path is base/<name>; `root` is the old_dir every path must stay below"""
+    root = root or base
     is_dir = draw(st.booleans()) if directory is None else directory
     name = draw(dir_comp_strategy(hostile) if is_dir else name_strategy(hostile))
     sub = draw(st.lists(dir_comp_strategy(hostile), min_size=0, max_size=2)) if depth == 0 else []
@@ -280,10 +304,23 @@ def file_value(draw, base: str, hostile: bool, depth: int, directory=None):
             out.update({"nameroot": root, "nameext": ext, "size": draw(st.integers(0, 99)),
                         "checksum": "sha1$da39a3ee5e6b4b0d3255bfef95601890afd80709"})
         if depth < 3 and draw(st.integers(0, 3)) == 0:
-            out["secondaryFiles"] = draw(st.lists(file_value(posixpath.dirname(path), hostile, depth + 1), min_size=0, max_size=2))
+            out["secondaryFiles"] = draw(st.lists(file_value(posixpath.dirname(path), hostile, depth + 1, root=root), min_size=0, max_size=2))
     else:
-        if depth < 3 and draw(st.integers(0, 2)) == 0:
-            out["listing"] = draw(st.lists(file_value(path, hostile, depth + 1), min_size=0, max_size=3))
+        if depth < 3 and draw(st.integers(0, 2)) <= (1 if depth == 0 else 0):
+            # "own": the entries live beneath the Directory (what a directory scan gives); "assembled": a Directory
+            # literal that lists entries living elsewhere below old_dir (CWL allows it: expressions, InitialWorkDir
+            # listings); "mixed": both
+            mode = draw(st.sampled_from(["own", "own", "assembled", "assembled", "mixed"]))
+            entries = []
+            for _ in range(draw(st.integers(0, 3))):
+                if mode == "own" or (mode == "mixed" and draw(st.booleans())):
+                    ebase = path
+                else:
+                    ebase = draw(st.sampled_from([root, posixpath.dirname(path), root + "/elsewhere", root + "/other dir/deep"]))
+                e = draw(file_value(ebase, hostile, depth + 1, root=root))
+                if _primary(e) != path:
+                    entries.append(e)
+            out["listing"] = entries
     return out
 
 
